@@ -248,12 +248,16 @@ def run(ctx):
     focus = tlc.gen(ctx, "Gen_Registry", cfg_text="INIT GInit\nNEXT FNext\nCONSTANTS MaxLen = 5\nCHECK_DEADLOCK FALSE\n")
     if len(focus) < 100:
         raise util.MachineryError("focused histories incomplete")
+    focus2 = tlc.gen(ctx, "Gen_Registry", cfg_text="INIT GInit\nNEXT F2Next\nCONSTANTS MaxLen = 5\nCHECK_DEADLOCK FALSE\n")
+    if len(focus2) < 50:
+        raise util.MachineryError("second family of focused histories incomplete (%d)" % len(focus2))
     if len(s3) < 20000 or len(walks) < 500:
         raise util.MachineryError("history generation incomplete")
     rng = random.Random(ctx.seed + 16)
     rng.shuffle(s3)
     rng.shuffle(focus)
-    hs = s3[:ctx.pick(600, 8000)] + walks + focus[:ctx.pick(250, 100000)]
+    rng.shuffle(focus2)
+    hs = s3[:ctx.pick(600, 8000)] + walks + focus[:ctx.pick(250, 100000)] + focus2[:ctx.pick(200, 100000)]
     sers = ["serpent", "json", "msgpack", "marshal"]
     jobs = [(h, sers[i % 4] if i % 8 != 7 else "serpent") for i, h in enumerate(hs)]
     traces = run_histories(jobs)
